@@ -8,6 +8,21 @@ use std::time::Duration;
 pub struct Flounder {
     board: Board,
     searcher: Searcher,
+    /// Verification hook: what the last go command parsed and answered (off in normal builds)
+    #[cfg(flounder_verif)]
+    pub verif: VerifUci,
+}
+
+/// Verification hook state
+#[cfg(flounder_verif)]
+#[derive(Default)]
+pub struct VerifUci {
+    /// (depth, time budget) handed to the search by the last go command
+    pub last_go: Option<(u8, Option<Duration>)>,
+    /// when true, go records last_go and returns without searching
+    pub budget_only: bool,
+    /// what the last go command answered (None = 0000)
+    pub last_bestmove: Option<Option<String>>,
 }
 
 impl Flounder {
@@ -15,7 +30,28 @@ impl Flounder {
         Self {
             board: Board::default(),
             searcher: Searcher::new(),
+            #[cfg(flounder_verif)]
+            verif: VerifUci::default(),
         }
+    }
+
+    /// Verification hooks: drive and observe the protocol handler in-process
+    #[cfg(flounder_verif)]
+    #[allow(dead_code)]
+    pub fn verif_handle_command(&mut self, command: &str) {
+        self.handle_command(command);
+    }
+
+    #[cfg(flounder_verif)]
+    #[allow(dead_code)]
+    pub fn verif_board(&self) -> &Board {
+        &self.board
+    }
+
+    #[cfg(flounder_verif)]
+    #[allow(dead_code)]
+    pub fn verif_searcher(&mut self) -> &mut Searcher {
+        &mut self.searcher
     }
 
     /// Main UCI loop that reads and processes commands
@@ -154,7 +190,20 @@ impl Flounder {
             }
         }
 
+        #[cfg(flounder_verif)]
+        {
+            self.verif.last_go = Some((depth, time_limit));
+            if self.verif.budget_only {
+                return;
+            }
+        }
+
         let (_, best_move) = self.searcher.find_best_move(&self.board, depth, time_limit);
+
+        #[cfg(flounder_verif)]
+        {
+            self.verif.last_bestmove = Some(best_move.map(|mv| mv.to_algebraic()));
+        }
 
         if let Some(mv) = best_move {
             println!("bestmove {}", mv.to_algebraic());
